@@ -197,6 +197,31 @@ func checkSeatLookups(c *Ctx, rule string) {
 				map[string]func(bodyPath) bool{"select the seat": selected},
 				map[string]func(map[string]bool) bool{"select the seat": want})
 			c.Check(d == "", rule, "seat-scan:"+name, p.Pos(f.Pos()), "selects exactly "+desc, "seat look-up in "+name+" (expected: "+desc+"): "+d)
+			// what the scan accumulates starts from nothing: an empty list, an empty map, a zero count
+			for b := range naturalLoop(sc.Header) {
+				for _, in := range b.Instrs {
+					switch x := in.(type) {
+					case *ssa.Call:
+						if bi, isB := x.Call.Value.(*ssa.Builtin); isB && bi.Name() == "append" {
+							for _, o := range appendOrigins(x.Call.Args[0]) {
+								c.Check(isEmptySlice(p.Sym(o)), rule, "seat-scan-start:"+name, p.InstrPos(x), "collected list starts empty", "the list collected by "+name+" does not start empty ("+p.Sym(o).String()+"): seat 0 is reported without having been looked at")
+							}
+						}
+					case *ssa.BinOp:
+						if k, isK := x.Y.(*ssa.Const); isK && x.Op == token.ADD && k.Value != nil && k.Value.String() == "1" {
+							if ph, isPhi := x.X.(*ssa.Phi); isPhi && ph.Block() == sc.Header {
+								for _, lf := range p.phiLeaves(ph) {
+									if lf.V == ssa.Value(x) {
+										continue
+									}
+									z, isZ := p.Sym(lf.V).ConstInt()
+									c.Check(isZ && z == 0, rule, "seat-scan-start:"+name, p.InstrPos(x), "count starts at 0", "the count kept by "+name+" does not start at 0")
+								}
+							}
+						}
+					}
+				}
+			}
 			// what is handed out for the selected seat
 			for _, bp := range sc.Body {
 				if !bp.Exit {
@@ -233,6 +258,22 @@ func checkSeatLookups(c *Ctx, rule string) {
 		}
 	}
 	c.Min(rule, "seat look-up loops", n, 5)
+	// the waiting predicate answers "not waiting" for an id that holds no seat
+	if f := p.Method(smT, "IsPlayerBetweenDealerBB"); f != nil {
+		ok := true
+		nConst := 0
+		for _, b := range f.Blocks {
+			if r, isR := b.Instrs[len(b.Instrs)-1].(*ssa.Return); isR && len(r.Results) == 1 {
+				if k, isK := r.Results[0].(*ssa.Const); isK {
+					nConst++
+					if v, _ := constBool(k); v {
+						ok = false
+					}
+				}
+			}
+		}
+		c.Check(ok && nConst >= 1, rule, "not-found:IsPlayerBetweenDealerBB", p.Pos(f.Pos()), "no seat / not initialised / short deck → false", "the waiting predicate answers true without having found the player's seat")
+	}
 
 	// not-found defaults
 	for _, nm := range []string{"GetSeatID", "getSeatPlayer"} {
@@ -429,6 +470,20 @@ func appendOrigins(v ssa.Value) []ssa.Value {
 			if b2, isB2 := x.Call.Value.(*ssa.Builtin); isB2 && b2.Name() == "append" {
 				walk(x.Call.Args[0])
 				return
+			}
+		case *ssa.UnOp:
+			// a local captured by a closure lives in a cell: its values are what is stored there
+			if al, isAl := x.X.(*ssa.Alloc); isAl && x.Op == token.MUL && al.Referrers() != nil {
+				n := 0
+				for _, r := range *al.Referrers() {
+					if st, isSt := r.(*ssa.Store); isSt && st.Addr == ssa.Value(al) {
+						n++
+						walk(st.Val)
+					}
+				}
+				if n > 0 {
+					return
+				}
 			}
 		}
 		out = append(out, v)
